@@ -4,6 +4,7 @@ package harness
 // stanzas received. Wire truth is kept by the scripted peer.
 
 import (
+	"sync/atomic"
 	"fmt"
 	"strconv"
 	"testing"
@@ -26,6 +27,12 @@ type c09Case struct {
 	// SMResume: the resume attribute of the server's <enabled/> ("" = true, "-" = attribute absent). Acknowledgements
 	// are active either way; without resumption the history has a single connection.
 	SMResume string `json:"sm_resume,omitempty"`
+	// Trailing: per segment but the last, elements the server sends after the segment's final <r/> was answered and
+	// right before it closes the connection (FIN after the data): they were received, so the resumption counts them.
+	Trailing [][]string `json:"trailing,omitempty"`
+	// ResumeInHandler: Resume is called by the handler of the Disconnected event, as StreamManager does, instead of by
+	// the caller once the event has been seen.
+	ResumeInHandler bool `json:"resume_in_handler,omitempty"`
 }
 
 var c09Items = []string{"m", "m", "p", "iq-result", "iq-error", "iq-get", "iq-set", "r", "r", "r", "a", "a", "features", "enabled", "success"}
@@ -50,6 +57,19 @@ func genC09(t *rapid.T) c09Case {
 		}
 		seg = append(seg, "r") // every segment ends with an acknowledgement request
 		c.Segments = append(c.Segments, seg)
+	}
+	if nseg > 1 {
+		c.ResumeInHandler = rapid.Bool().Draw(t, "resumeInHandler")
+		if rapid.Bool().Draw(t, "trailing") {
+			for s := 0; s+1 < nseg; s++ {
+				n := rapid.IntRange(0, 4).Draw(t, "ntrail")
+				tr := make([]string, 0, n)
+				for i := 0; i < n; i++ {
+					tr = append(tr, rapid.SampledFrom([]string{"m", "p", "iq-result", "iq-error", "iq-get", "iq-set", "a"}).Draw(t, "titem"))
+				}
+				c.Trailing = append(c.Trailing, tr)
+			}
+		}
 	}
 	if rapid.IntRange(0, 3).Draw(t, "before") == 0 {
 		nb := rapid.IntRange(1, 2).Draw(t, "nbefore")
@@ -202,7 +222,25 @@ func runC09(c c09Case) vh.Result {
 		}
 		o.done = true
 		if idx+1 < len(c.Segments) {
-			pc.Close() // drop the connection; the client is expected to resume
+			sentTrailing := false
+			if idx < len(c.Trailing) {
+				for k, it := range c.Trailing[idx] {
+					sentTrailing = true
+					if isStanzaItem(it) {
+						pc.SendChunks(inboundStanza(it, fmt.Sprintf("t%d-%d", idx, k), 0), c.Chunks)
+						total++
+					} else {
+						pc.SendChunks(nonzaXML(it), c.Chunks)
+					}
+				}
+			}
+			if sentTrailing {
+				// FIN after the data, and no RST: the client reads everything before it sees the end of the stream
+				report()
+				pc.GracefulClose(2 * time.Second)
+			} else {
+				pc.Close() // drop the connection; the client is expected to resume
+			}
 		} else {
 			report()
 			pc.AfterFault(10 * time.Second)
@@ -218,11 +256,20 @@ func runC09(c c09Case) vh.Result {
 		res.Fail("harness", "NewClient: %v", err)
 		return res
 	}
+	totalConns := len(c.Before) + len(c.Segments)
+	var resumesLeft int32 = int32(totalConns - 1)
+	resumed := make(chan error, totalConns+1)
+	if c.ResumeInHandler {
+		rec.evHook = func(e xmpp.Event) {
+			if xmpp.VerifEventState(e) == xmpp.StateDisconnected && atomic.AddInt32(&resumesLeft, -1) >= 0 {
+				resumed <- cl.Resume()
+			}
+		}
+	}
 	if err := cl.Connect(); err != nil {
 		res.Fail("harness-connect", "Connect: %v", err)
 		return res
 	}
-	totalConns := len(c.Before) + len(c.Segments)
 	for seg := 0; seg < totalConns; seg++ {
 		var o c09Obs
 		select {
@@ -235,7 +282,19 @@ func runC09(c c09Case) vh.Result {
 		if len(o.viol) > 0 || !o.done {
 			break
 		}
-		if seg+1 < totalConns {
+		if seg+1 < totalConns && c.ResumeInHandler {
+			select {
+			case err := <-resumed:
+				if err != nil {
+					res.Fail("harness-resume", "segment %d: Resume (called by the Disconnected handler) failed: %v", seg, err)
+				}
+			case <-time.After(20 * time.Second):
+				res.Fail("harness-no-disconnect", "segment %d: connection dropped by the peer but the Disconnected handler had not resumed within 20 s", seg)
+			}
+			if len(res.Violations) > 0 {
+				break
+			}
+		} else if seg+1 < totalConns {
 			// wait for the loss to be noticed, then resume
 			if !waitFor(5*time.Second, func() bool { return rec.count(xmpp.StateDisconnected) >= seg+1 }) {
 				res.Fail("harness-no-disconnect", "segment %d: connection dropped by the peer but no Disconnected event within 5 s", seg)
@@ -247,6 +306,7 @@ func runC09(c c09Case) vh.Result {
 			}
 		}
 	}
+	atomic.StoreInt32(&resumesLeft, -1000)
 	go func() { _ = cl.Disconnect() }()
 	stanzas := 0
 	for _, seg := range c.Segments {
@@ -266,6 +326,15 @@ func runC09(c c09Case) vh.Result {
 	if c.SMResume == "-" || c.SMResume == "false" || c.SMResume == "0" {
 		res.Label("enabled-without-resumption")
 	}
+	if c.ResumeInHandler {
+		res.Label("resume-called-by-disconnected-handler")
+	}
+	for _, tr := range c.Trailing {
+		if len(tr) > 0 {
+			res.Label("elements-between-last-r-and-loss")
+			break
+		}
+	}
 	if afterNonStanza {
 		res.Label("r-after-non-stanza")
 	}
@@ -274,7 +343,7 @@ func runC09(c c09Case) vh.Result {
 
 var c09 = vh.Define(&vh.Def[c09Case]{
 	Property: "C09", Name: "smcount",
-	Rule: "inbound histories over {message, presence, iq result/error/get/set, <r/>, <a/>, stream features, <enabled/>, SASL success}, 0-60 elements per connection, optionally written in chunks of generated sizes, on 1-4 successive connections of one client (the peer drops the connection and the client resumes), in a quarter of the cases preceded by 1-2 connections of the same client on which the server did not offer stream management (the stream-managed session must then start at zero), the server's <enabled/> allowing resumption or not (resume absent / false / 0 / 1 / true; single-connection histories); a real Client with stream management negotiated against the scripted peer; oracle = wire truth kept by the peer: h of every <a/> written by the client equals the number of stanzas the peer had sent before the <r/>, h of every <resume/> equals the total on the session and previd is the id from <enabled/>; non-trivial = the history has a stanza, an <r/> after a non-stanza element, or a resumption",
+	Rule: "inbound histories over {message, presence, iq result/error/get/set, <r/>, <a/>, stream features, <enabled/>, SASL success}, 0-60 elements per connection, optionally written in chunks of generated sizes, on 1-4 successive connections of one client (the peer drops the connection and the client resumes - called by the test once the Disconnected event was seen or, in half of these cases, by the handler of that event as StreamManager does; in half of them 0-4 further elements follow the last answered <r/> before the peer closes with FIN after the data), in a quarter of the cases preceded by 1-2 connections of the same client on which the server did not offer stream management (the stream-managed session must then start at zero), the server's <enabled/> allowing resumption or not (resume absent / false / 0 / 1 / true; single-connection histories); a real Client with stream management negotiated against the scripted peer; oracle = wire truth kept by the peer: h of every <a/> written by the client equals the number of stanzas the peer had sent before the <r/>, h of every <resume/> equals the total on the session and previd is the id from <enabled/>; non-trivial = the history has a stanza, an <r/> after a non-stanza element, or a resumption",
 	Quick: 2000, Thorough: 24000, Journal: true,
 	Gen: genC09, Run: runC09,
 })
